@@ -228,6 +228,13 @@ def run_case(tid, seed, cfgcls, workdir, thorough):
             'ignoreH': kw['ignore_hydrogens'], 'restr': restr if restr is not None else 'None', 'tlc_case': cfgcls is not None, 'degenerate': degenerate, 'reassign': reassign}
     cfg = {'nS': nS, 'nE': nE, 'types': sorted(set(eff)), 'tree': tree}
     try:
+        if rng.random() < 0.3:
+            # an earlier alignment in the same process of the same species (copies sharing the topology objects) in
+            # another conformation with other bond lengths: nothing of it may reach the alignment observed below
+            sp, ep = start.copy(), end.copy()
+            sp.atoms_positions = start.atoms_positions * 1.37
+            ep.atoms_positions = end.atoms_positions * 0.81
+            one_alignment(sp, ep, eS, eE, kw, 1, (seed + 1) % (2 ** 32), observe=False)
         ev, dig = one_alignment(start, end, eS, eE, kw, factor, seed % (2 ** 32), reassign=reassign)
         _ev2, dig2 = one_alignment(start, end, eS, eE, kw, factor, seed % (2 ** 32), observe=False, reassign=reassign)
         ev.append({'op': 'Repeat', 'same': bool(dig == dig2)})
